@@ -67,6 +67,9 @@ pub struct C07 {
     expect: Option<(String, String)>, // (signature context, detail) when all antecedents hold
     /// pre-state quantities used to tell WHICH subtraction underflowed: (margin, margin after the realised PnL)
     sub_ctx: (u128, Option<u128>),
+    /// open notional + |realised PnL|: first operand of the new-open-notional line of a partial liquidation in the two
+    /// cases where the engine adds the realised PnL before subtracting the exchanged quote (long in profit, short in loss)
+    notional_ctx: Option<u128>,
 }
 
 impl Monitor for C07 {
@@ -175,7 +178,8 @@ impl Monitor for C07 {
         // the partial path computes margin' = margin + realised spot PnL - penalty unsigned; the first operand of an
         // underflowing subtraction on that line is the margin or the margin after the realised PnL
         let realized = view.pnl_for(q_whole).mul(Big::u(e.partial)).div(Big::u(d));
-        self.sub_ctx = (view.pos.margin, Big::u(view.pos.margin).add(realized).to_u128());
+        self.sub_ctx = (view.pos.margin, Big::u(view.pos.margin).add(realized.clone()).to_u128());
+        self.notional_ctx = if view.pos.long_dir != realized.is_neg() { Big::u(view.pos.notional).add(realized.abs()).to_u128() } else { None };
         r.count("antecedents-met");
         if e.paused {
             r.count(if predicted_partial { "antecedents-met-while-paused:partial-path" } else { "antecedents-met-while-paused:full-path" });
@@ -210,6 +214,7 @@ impl Monitor for C07 {
             let sub_tag = if ec.contains("Cannot Sub") {
                 match nums.first() {
                     Some(a) if *a == self.sub_ctx.0 || Some(*a) == self.sub_ctx.1 => "|sub:margin",
+                    Some(a) if Some(*a) == self.notional_ctx => "|sub:notional+pnl",
                     _ => "|sub:other",
                 }
             } else {
@@ -219,6 +224,10 @@ impl Monitor for C07 {
                 parts[3].to_string()
             } else if ec.contains("parsing into type") {
                 "oracle-read".to_string()
+            } else if sub_tag == "|sub:notional+pnl" {
+                // the cause (pro-rata realised PnL vs. the convex price of the partial trade) does not depend on which
+                // ratio class sent the position down the partial path
+                format!("{}{}", parts[2], sub_tag)
             } else {
                 format!("{}|{}{}", parts[1], parts[2], sub_tag)
             };
